@@ -192,25 +192,41 @@ pub fn rtag(body: &str) -> Option<RTag> {
 /// A `/name` tag closes the innermost open `name`; everything above it on the stack is demoted
 /// to text; unmatched closers and unclosed openers are text.
 pub fn rpair(tags: &[Option<String>]) -> Vec<(usize, usize)> {
+    rpair_checked(tags).unwrap_or_default()
+}
+
+/// Like `rpair`, but None when the sequence contains a tag whose name starts with two slashes
+/// while an element that it could close under either reading (`//a` closes `/a`, or `//a`
+/// closes `a`) is open: the property does not say which, so the case is unspecified. Stray
+/// closers are inert text: they never become open elements.
+pub fn rpair_checked(tags: &[Option<String>]) -> Option<Vec<(usize, usize)>> {
     let mut stack: Vec<usize> = vec![];
     let mut pairs = vec![];
     for (k, t) in tags.iter().enumerate() {
         if let Some(name) = t {
             if let Some(nm) = name.strip_prefix('/') {
+                if nm.starts_with('/') {
+                    let base = nm.trim_start_matches('/');
+                    if stack.iter().any(|o| tags[*o].as_deref() == Some(nm) || tags[*o].as_deref() == Some(base)) {
+                        return None;
+                    }
+                    continue;
+                }
                 if let Some(p) = stack
                     .iter()
                     .rposition(|o| tags[*o].as_deref() == Some(nm))
                 {
                     pairs.push((stack[p], k));
                     stack.truncate(p);
-                    continue;
                 }
+                // a closer with no matching open element is inert text
+                continue;
             }
             stack.push(k);
         }
     }
     pairs.sort();
-    pairs
+    Some(pairs)
 }
 
 // ---------------------------------------------------------------- R-time
